@@ -404,6 +404,9 @@ class Component( ComponentLevel7 ):
             if other not in removed_connectables and other not in removed_consts:
               top._dsl.all_adjacency[other].remove( x )
               if isinstance( other, Const ):
+                # A Const is connected to this one signal only, and
+                # _add_component creates a new one when it re-connects
+                del top._dsl.all_adjacency[other]
                 other = other._dsl.const
               saved_connections.append( (other, "top"+repr(x)[1:]) ) # other is from outside
           del top._dsl.all_adjacency[x]
@@ -414,6 +417,9 @@ class Component( ComponentLevel7 ):
             # other must be in the dict
             if other not in removed_connectables:
               parent._dsl.adjacency[other].remove( x )
+              if isinstance( other, Const ):
+                del parent._dsl.adjacency[other]
+                parent._dsl.consts.discard( other )
           del parent._dsl.adjacency[x]
 
       # The constants of the removed components are not in the design anymore
